@@ -37,15 +37,15 @@ macro_rules! local_harness {
     };
 }
 
-local_harness!(rel_local_raw_record, h_local_raw, parse_tls_raw_record, 12, 4,
+local_harness!(rel_local_raw_record, h_local_raw, parse_tls_raw_record, 12, 14,
     "locality(raw record): appending bytes only extends the remainder", "locality(raw record): appending bytes leaves the value unchanged");
 local_harness!(rel_local_dh_params, h_local_dh, parse_dh_params, 10, 5,
     "locality(dh params): appending bytes only extends the remainder", "locality(dh params): appending bytes leaves the value unchanged");
 local_harness!(rel_local_ecdh_params, h_local_ecdh, parse_ecdh_params, 8, 8,
     "locality(ecdh params): appending bytes only extends the remainder", "locality(ecdh params): appending bytes leaves the value unchanged");
-local_harness!(rel_local_digitally_signed, h_local_ds, parse_digitally_signed, 8, 4,
+local_harness!(rel_local_digitally_signed, h_local_ds, parse_digitally_signed, 8, 10,
     "locality(digitally-signed): appending bytes only extends the remainder", "locality(digitally-signed): appending bytes leaves the value unchanged");
-local_harness!(rel_local_ext_unknown, h_local_extu, parse_tls_extension_unknown, 8, 4,
+local_harness!(rel_local_ext_unknown, h_local_extu, parse_tls_extension_unknown, 8, 10,
     "locality(extension framing): appending bytes only extends the remainder", "locality(extension framing): appending bytes leaves the value unchanged");
 local_harness!(rel_local_dtls_header, h_local_dtlsh, parse_dtls_record_header, 16, 10,
     "locality(dtls header): appending bytes only extends the remainder", "locality(dtls header): appending bytes leaves the value unchanged");
